@@ -10,7 +10,7 @@
    orders of the code as it is now. *)
 From Coq Require Import List Bool Arith NArith.
 Import ListNotations.
-From C15 Require Import Model Reach Proofs.
+From C15 Require Import Model Reach Proofs ModelPar ModelPL ModelUse ProofsPar ProofsPL.
 
 (* From every crash state of every history the loader does not refuse to start. *)
 Theorem C15_startup_total : forall sorted s, reachable cur_progs sorted s -> pr s <> PFatal.
@@ -66,6 +66,116 @@ Theorem C15_cache_transparent :
     new_sealed (match c_file (c_run hdr ops) with Some f => cget f n | None => None end) (hdr n) = hdr n.
 Proof. exact cache_transparent. Qed.
 Print Assumptions C15_cache_transparent.
+
+(* ---------------------------------------------------------------- the whole directory: parallel deletions *)
+
+(* [drun sorted evs d]: the directory d (fractions in creation order, each in its single-fraction state)
+   after the events evs: a retention pass pushing out the k oldest listed fractions and starting one
+   deletion goroutine per outsider (DPass k), the scheduler letting the goroutine of fraction i perform
+   its next file operation (DStep i / DStepR i), bulks, background seals, rotation, process death after
+   ANY operation of ANY goroutine (DCrash), and a new process whose loader removals are again
+   interleaved and interruptible (DRestart; DStep). *)
+
+(* All or nothing for every interleaving and every crash point: every fraction of the directory is in a
+   good state (next start serves it completely or not at all, no document-bearing residue, the loader
+   does not refuse to start), and a fraction whose deletion has reached the disk (.del seen) or that a
+   start has dropped stays doomed and is neither listed by a process nor served by a later start. *)
+Theorem C15_parallel_retention_all_or_nothing :
+  forall sorted d0 evs, Forall (reachable cur_progs sorted) (d_fr d0) ->
+    Forall (fun s => st_good true sorted s = true) (d_fr (drun sorted evs d0))
+    /\ (forall evs' i s, nth_error (d_fr (drun sorted evs d0)) i = Some s -> doomed s = true ->
+          exists s', nth_error (d_fr (drun sorted evs' (drun sorted evs d0))) i = Some s'
+                     /\ doomed s' = true /\ visible s' = false).
+Proof. exact par_all_or_nothing. Qed.
+Print Assumptions C15_parallel_retention_all_or_nothing.
+
+(* "Oldest first" right after a crash inside a pass does NOT hold: two outsiders, the goroutine of the
+   NEWER one gets as far as renaming its .sdocs to .sdocs.del, the older one has not started; crash;
+   the start finishes off the newer fraction and serves the older one.
+   Full statement that is refuted:
+     forall sorted k sched d0, Forall (fun s => clean sorted s = true) d0 ->
+       prefix_shape (map alive (after_crashed_pass sorted k sched d0)) = true. *)
+Theorem C15_parallel_retention_prefix_at_restart_refuted :
+  exists sorted k sched d0, Forall (fun s => clean sorted s = true) d0 /\
+    prefix_shape (map alive (after_crashed_pass sorted k sched d0)) = false.
+Proof. exact par_prefix_at_restart_refuted. Qed.
+Print Assumptions C15_parallel_retention_prefix_at_restart_refuted.
+
+(* What does hold at that restart: the damage is confined to the k fractions the pass had selected;
+   every other fraction is served, none is lost from the directory listing. *)
+Theorem C15_parallel_retention_restart_bound :
+  forall sorted k sched d0, Forall (fun s => clean sorted s = true) d0 ->
+    length (after_crashed_pass sorted k sched d0) = length d0
+    /\ forallb alive (skipn k (after_crashed_pass sorted k sched d0)) = true.
+Proof. exact par_restart_bound. Qed.
+Print Assumptions C15_parallel_retention_restart_bound.
+
+(* Eventually: the survivors of the interrupted pass are at the head of the list again, so as soon as a
+   later pass pushes out at least as many fractions as survived among the k selected ones, the removed
+   set is a prefix of the creation order again.
+   The unconditional statement (the NEXT pass with the same limit restores the prefix) is refuted below,
+   therefore this theorem carries the hypothesis on k' and is named _partial. *)
+Theorem C15_parallel_retention_prefix_eventually_partial :
+  forall sorted k sched k' d0, Forall (fun s => clean sorted s = true) d0 ->
+    let d1 := after_crashed_pass sorted k sched d0 in
+    count_true (map alive (firstn k d1)) <= k' ->
+    prefix_shape (map alive (after_next_pass sorted k' d1)) = true.
+Proof. exact par_prefix_eventually. Qed.
+Print Assumptions C15_parallel_retention_prefix_eventually_partial.
+
+(* sizes 1, 10, 4, limit 5: the pass selects two fractions; crash as above; the manager then lists sizes
+   1 and 4, the limit holds, the next pass removes nothing: the older fraction stays served next to the
+   hole for as long as the total stays under the limit. *)
+Theorem C15_parallel_retention_prefix_eventually_refuted :
+  exists sorted limit sizes sched d0, Forall (fun s => clean sorted s = true) d0 /\ length sizes = length d0 /\
+    let k := shrink limit sizes in
+    let d1 := after_crashed_pass sorted k sched d0 in
+    let k' := shrink limit (live_sizes d1 sizes) in
+    k = 2 /\ k' = 0 /\ prefix_shape (map alive (after_next_pass sorted k' d1)) = false.
+Proof. exact par_prefix_eventually_refuted. Qed.
+Print Assumptions C15_parallel_retention_prefix_eventually_refuted.
+
+(* ---------------------------------------------------------------- readers against deletion (use lock) *)
+
+(* For every schedule of readers (RLock, flag check, provider release) and of the deleting goroutine
+   (Lock, set flag, Unlock, renames and removals): no reader opens files of a fraction whose deletion has
+   begun on disk, no rename or removal runs while a provider is out, and once the files have changed the
+   flag is set (later readers get the empty provider) and no provider is out. *)
+Theorem C15_use_lock_safe :
+  forall prog f0 evs, let s := urun prog f0 evs in
+    u_bad_open s = false /\ u_bad_op s = false /\ (u_files s <> f0 -> u_flag s = true /\ u_use s = 0).
+Proof. exact use_lock_safe. Qed.
+Print Assumptions C15_use_lock_safe.
+
+(* ---------------------------------------------------------------- power loss *)
+
+(* .frac-cache is written with NO fsync (temp file: create, write, rename; no File.Sync, no directory
+   sync). After any history of adds, removals, saves (operation by operation, partial writes included),
+   directory syncs by other paths, process deaths, POWER LOSSES (any number of the not-yet-synced renames
+   lost, every file cut to any length) and restarts, loading fraction n through the file gives the Info
+   of its index header. *)
+Theorem C15_cache_transparent_powerloss :
+  forall hdr ops n, new_sealed (p_lookup (p_run hdr ops) n) (hdr n) = hdr n.
+Proof. exact cache_transparent_powerloss. Qed.
+Print Assumptions C15_cache_transparent_powerloss.
+
+(* The renames and removals of Sealed.Suicide are followed by NO directory sync. If directory operations
+   reach the disk in issue order (journalled metadata, the crash model of crashfs) every power-loss state
+   is safe ... *)
+Theorem C15_del_powerloss_ordered :
+  forall (sorted : bool) (i : nat),
+    let s0 := if sorted then fs_of [KSdocs; KIndex] else fs_of [KDocs; KIndex] in
+    let s := persist_ordered (sealed_suicide_xops sorted) i s0 in
+    safe true sorted true (any_del s || negb (fs_eqb s s0)) s = true.
+Proof. exact del_powerloss_ordered. Qed.
+Print Assumptions C15_del_powerloss_ordered.
+
+(* ... without that ordering it is not: .index renamed and removed on disk, the rename of .sdocs lost: a
+   lone .sdocs, the loader refuses to start (file-system assumption, stated in the manifest). *)
+Theorem C15_del_powerloss_unordered_refuted :
+  exists mask, classify (persist (sealed_suicide_xops true) mask (fs_of [KSdocs; KIndex])) = CFatal.
+Proof. exact del_powerloss_unordered_refuted. Qed.
+Print Assumptions C15_del_powerloss_unordered_refuted.
 
 (* ---------------------------------------------------------------- refutations kept as documentation *)
 
@@ -157,3 +267,49 @@ Proof.
     intro H; inversion H. left. apply Nat.eqb_eq in E2. subst. reflexivity.
   - do 2 (apply Forall_cons; [exact I|]). apply Forall_nil.
 Qed.
+
+(* ---------------------------------------------------------------- non-vacuity of the new parts *)
+
+(* the hypothesis of the directory theorems is met, and a pass with two goroutines really interleaves:
+   after "newer fraction: two operations, older: none" the newer one carries a .del file *)
+Example C15_nonvacuous_par :
+  Forall (reachable cur_progs true) [clean_sealed true; clean_sealed true; clean_active]
+  /\ Forall (fun s => clean true s = true) [clean_sealed true; clean_sealed true; clean_active]
+  /\ map (fun s => any_del (files s))
+        (d_fr (drun true [DPass 2; DStep 1; DStep 1; DStep 0; DCrash]
+                 (mkd true [clean_sealed true; clean_sealed true; clean_active]))) = [false; true; false]
+  /\ map alive (after_crashed_pass true 2 [1; 1] [clean_sealed true; clean_sealed true; clean_active]) = [true; false; true]
+  /\ map alive (after_next_pass true 1 (after_crashed_pass true 2 [1; 1] [clean_sealed true; clean_sealed true; clean_active]))
+     = [false; false; true].
+Proof.
+  split; [|split; [repeat (apply Forall_cons; [reflexivity|]); apply Forall_nil|repeat split; vm_compute; reflexivity]].
+  repeat (apply Forall_cons; [|try apply Forall_nil]).
+  - destruct (exists_reachable cur_progs true (fun t => st_eqb t (clean_sealed true))) as [s [Hr Hp]]; [vm_compute; reflexivity|].
+    apply st_eqb_true in Hp. subst. exact Hr.
+  - destruct (exists_reachable cur_progs true (fun t => st_eqb t (clean_sealed true))) as [s [Hr Hp]]; [vm_compute; reflexivity|].
+    apply st_eqb_true in Hp. subst. exact Hr.
+  - destruct (exists_reachable cur_progs true (fun t => st_eqb t clean_active)) as [s [Hr Hp]]; [vm_compute; reflexivity|].
+    apply st_eqb_true in Hp. subst. exact Hr.
+Qed.
+
+(* a reader holds a provider while the deletion is requested: nothing happens until it is released *)
+Example C15_nonvacuous_use :
+  let f0 := fs_of [KSdocs; KIndex] in
+  map (fun o => (fst o, fs_eqb (snd o) f0)) (uobs sealed_suicide_prog f0 (u_init f0) [AAcq; ASuicide; ARel; AAcq])
+  = [(true, true); (false, true); (false, false); (false, false)]
+  /\ u_files (fst (uact_step sealed_suicide_prog f0 (fst (uact_step sealed_suicide_prog f0 (u_init f0) ASuicide)) AAcq)) = empty_fs.
+Proof. split; vm_compute; reflexivity. Qed.
+
+(* deletion that does not take the write lock renames files under a reader *)
+Example C15_use_nolock_refuted :
+  exists evs, u_bad_op (fold_left (ustep_nolock sealed_suicide_prog (fs_of [KSdocs; KIndex])) evs (u_init (fs_of [KSdocs; KIndex]))) = true.
+Proof. exact use_nolock_refuted. Qed.
+
+(* a save interrupted by a power loss after the rename, file cut to 10 of 40 bytes: the loader gets no map;
+   with all 40 bytes it gets the saved one *)
+Example C15_nonvacuous_cache_powerloss :
+  let hdr := fun n => mkinfo (N.of_nat n) 1 2 3 4 0 in
+  p_lookup (p_run hdr [PLAdd 1; PLCreate 40; PLWrite 40; PLRename; PLPower 0 10 0; PLRestart]) 1 = None
+  /\ p_lookup (p_run hdr [PLAdd 1; PLCreate 40; PLWrite 40; PLRename; PLPower 0 40 0; PLRestart]) 1 = Some (hdr 1)
+  /\ p_lookup (p_run hdr [PLAdd 1; PLCreate 40; PLWrite 40; PLRename; PLAdd 2; PLCreate 80; PLWrite 80; PLRename; PLPower 1 40 0; PLRestart]) 2 = None.
+Proof. repeat split. Qed.
